@@ -935,6 +935,37 @@ fn jobsout_main(env: &mut Env<VS>, args: Vec<Field>) -> BFut<'_> {
     Box::pin(std::future::ready(BResult::new(st)))
 }
 
+/// `pgcheck` - first command of an asynchronous job of a job-control shell:
+/// the job is a process group of its own from the start, whichever of parent
+/// and child ran first after the fork (both call setpgid).
+fn pgcheck_main(env: &mut Env<VS>, _args: Vec<Field>) -> BFut<'_> {
+    use yash_env::system::GetPid as _;
+    let pid = env.system.getpid();
+    let pgid = env.system.getpgrp();
+    // (only a job of a shell that controls jobs: the option is on and this
+    // process is the first subshell level)
+    let monitor = env.options.get(yash_env::option::Option::Monitor) == yash_env::option::State::On;
+    let levels = env.stack.iter().filter(|f| matches!(f, yash_env::stack::Frame::Subshell)).count();
+    if !monitor || levels != 1 {
+        let st = env.exit_status;
+        return Box::pin(std::future::ready(BResult::new(st)));
+    }
+    if let Some(ctl) = ctl() {
+        ctl.count("job_process_groups_checked");
+        if pgid != pid {
+            ctl.record(
+                pid.0,
+                "jobcheck-fail",
+                0,
+                0,
+                &format!("job-pgid: the asynchronous job running as process {pid} is in process group {pgid}, not in one of its own"),
+            );
+        }
+    }
+    let st = env.exit_status;
+    Box::pin(std::future::ready(BResult::new(st)))
+}
+
 /// `selfstop` - the calling process stops itself (SIGSTOP); returns when it
 /// is continued.
 fn selfstop_main(env: &mut Env<VS>, _args: Vec<Field>) -> BFut<'_> {
@@ -976,6 +1007,7 @@ pub fn virtual_probes() -> Vec<(&'static str, Builtin<VS>)> {
     v.push(("io", Builtin::new(Type::Mandatory, io_main)));
     v.push(("snap", Builtin::new(Type::Mandatory, snap_main)));
     v.push(("jobcheck", Builtin::new(Type::Mandatory, jobcheck_main)));
+    v.push(("pgcheck", Builtin::new(Type::Mandatory, pgcheck_main)));
     v.push(("jobsout", Builtin::new(Type::Mandatory, jobsout_main)));
     v.push(("selfstop", Builtin::new(Type::Mandatory, selfstop_main)));
     v.push(("contall", Builtin::new(Type::Mandatory, contall_main)));
